@@ -41,6 +41,7 @@ def setup(tier):
     common.install(td_modules=("ramses_tx.parsers", "ramses_tx.message"))
     import ramses_rf.entity_base  # noqa: F401
     import ramses_rf.gateway  # noqa: F401
+    import ramses_rf.dispatcher  # noqa: F401
 
 
 class Env:
@@ -261,6 +262,9 @@ def queries(tier, seed):
         env.check(res == "returned", "canary")  # false on the injected-fault paths
 
     qs.append(Query("canary:snapshot", canary, canary=True))
+    from checks import gwviews
+
+    qs += gwviews.queries(tier)
     only = os.environ.get("C13_ONLY")
     if only:
         qs = [q for q in qs if only in q.name or q.canary]
@@ -269,6 +273,10 @@ def queries(tier, seed):
 
 def replay(item):
     common.plain_imports()
+    if item["params"]["h"] == "gwviews":
+        from checks import gwviews
+
+        return gwviews.replay(item)
     if item["params"]["h"] == "view":
         from checks import c14
         from checks import decode as D
